@@ -1194,3 +1194,23 @@ package cose
 //@   callsite pad_y_zeros [C14] EncMode.Marshal#1: int64Labels(k.Params) && k.Type == 2 && sizeOf(pCurve(k.Params)) > 0 && len(pBytes(k.Params, -3)) > 0 && len(pBytes(k.Params, -3)) <= sizeOf(pCurve(k.Params))
 //@         ==> (forall i Int :: 0 <= i && i < sizeOf(pCurve(k.Params)) - len(pBytes(k.Params, -3)) ==> anybytes(arg1.(map[any]any)[int64(-3)])[i] == 0)
 //@   callsite common [C08, C14, C15] EncMode.Marshal#1: arg1 is map[any]any && int64(1) in arg1.(map[any]any)
+
+//@ func KeyOpFromString
+//@   ensures known [C15]: result1 ==> result0 >= 1 && result0 <= 8
+//@   ensures unknown [C15]: !result1 ==> result0 == 0
+//@   modifies frame [C18]: nothing
+
+//@ func (*Key).UnmarshalCBOR
+//@   requires nonnil: k != nil
+//@   ensures accept [C06, C15]: err == nil ==> k.Type != 0 && keyShapeOK(k.Type, k.Params, k.Algorithm)
+//@         && dec_shape_err(decMode, bytes(data), "map[any]any") == nil
+//@         && int64(1) in dec_map_dom(decMode, bytes(data)) && any_canint(dec_map_val(decMode, bytes(data))[int64(1)]) && k.Type == any_intval(dec_map_val(decMode, bytes(data))[int64(1)])
+//@   ensures labels [C15]: err == nil ==> (forall q any :: q in k.Params ==> (q is int64 || q is string) && q != int64(1) && q != int64(2) && q != int64(3) && q != int64(4) && q != int64(5))
+//@   ensures ops [C15]: err == nil ==> (k.Ops == nil <==> !(int64(4) in dec_map_dom(decMode, bytes(data))))
+//@   modifies frame [C18]: *k
+//@   loop 1 invariant ops_bounds: 0 <= idx && idx <= len(key_ops) && len(k.Ops) == len(key_ops) && fresh(k.Ops) && k.Ops != nil && len(key_ops) > 0
+//@   loop 1 invariant ops_kept: key_ops == entry(key_ops) && k.Type == entry(k.Type) && k.ID == entry(k.ID) && k.Algorithm == entry(k.Algorithm)
+//@   loop 2 invariant params_labels [C15]: k.Params != nil && fresh(k.Params) && (forall q any :: q in k.Params ==> (q is int64 || q is string) && q in ranged)
+//@   loop 2 invariant params_copied [C15]: forall q any :: q in seen ==> q in k.Params && ((q is int64 && q.(int64) == -1 && (k.Type == 2 || k.Type == 1)) ? (k.Params[q] is Curve && ranged[q] is int64 && k.Params[q].(Curve) == ranged[q].(int64)) : k.Params[q] == ranged[q])
+//@   loop 2 invariant tmp_kept: mapdom(ranged) == entry(mapdom(ranged)) && mapval(ranged) == entry(mapval(ranged)) && ranged != k.Params
+//@   loop 2 invariant fields_kept: k.Type == entry(k.Type) && k.ID == entry(k.ID) && k.Algorithm == entry(k.Algorithm) && k.Ops == entry(k.Ops) && k.BaseIV == entry(k.BaseIV) && k.Params == entry(k.Params)
